@@ -373,7 +373,7 @@ func init() {
 		every := tier == "thorough"
 		return &Plan{
 			Prop: "C02", Level: "fault_enumeration", Engine: "medium",
-			Runs:   tierPick(tier, 120, 20000),
+			Runs:   tierPick(tier, 240, 40000),
 			Budget: tierPick(tier, 55*time.Second, 14*time.Minute),
 			Rule: "valid CARv1/CARv2 images (<=5 blocks) built by the reference codec; for each image EVERY truncation offset and " + tierPick(tier, "every bit of every block-data and digest byte plus one seeded bit of every other byte", "EVERY single-bit flip") +
 				" is applied as a medium fault and the result is read by each verifying reader (v2 BlockReader.Next untrusted, Reader.Inspect(true), root-module CarReader.Next / LoadCar slow+fast, internal carv1 CarReader.Next / LoadCar) under two (capability profile, delivery plan) pairs rotating over all profiles. Oracle: every returned block hashes to its CID (computed by the harness); a flip in block data/digest and a cut inside a header or strictly inside a section end in an error that is not a clean end; a cut on a section boundary returns exactly the blocks before it. " +
